@@ -993,8 +993,9 @@ def run(tier, seed, replay=None):
             if ev["op"] == "recv":
                 ctx.nontrivial(("rx", chain, tuple(names), ev["len"], tuple(ev["head"]), ev["enc"]))
         if len(ctx.cov["samples"]) < 3:
-            ev = next(e for e in reversed(w.events) if e["op"] == "recv" and any(r["h"] for r in e["log"]))
-            ctx.sample({"world": [chain, names], "delivery": {k: v for k, v in ev.items() if k not in ("head",)}})
+            ev = next((e for e in reversed(w.events) if e["op"] == "recv" and any(r["h"] for r in e["log"])), None)
+            if ev is not None:      # (no handler entered at all in this world: the validation of its trace says why)
+                ctx.sample({"world": [chain, names], "delivery": {k: v for k, v in ev.items() if k not in ("head",)}})
     # ---------------- history: table actions of the real node between batteries; the exit sockets' own receive path
     if quick:
         hplans = [("udp", ["HiddenTunnelCommunity+xbt"], "timeouts"), ("udp", ["TunnelCommunity+xipv8"], "removals"),
